@@ -12,7 +12,7 @@ def run(res):
     vals, err = run_consts()
     if err:
         res.brk("translator", err)
-    common.prove(res)
+    common.prove(res, drivers=["tls"])
     n = 160 if res.tier == "quick" else 1500
     tls_common.campaign(res, WANT, n, os.path.join(common.CORPUS, "C11"))
     res.assumptions += [
